@@ -65,7 +65,7 @@ LEVEL_NOTE = (
 RULE = (
     "evaluation = one (world, injection point, mode) run; non-trivial = the point lies inside a temporary-name window "
     "(from the first event on `X#new` up to and including its rename over X), i.e. while a pre-existing path is being "
-    "replaced; distinct = (canonical world JSON, point, mode)"
+    "replaced, or the faulted event is aimed directly at a pre-existing entry location (in-place modification); distinct = (canonical world JSON, point, mode)"
 )
 ASSUMPTIONS = [
     "process death loses Python-buffered data; the kernel applies each completed syscall atomically",
@@ -471,6 +471,10 @@ def run_world(ctx, case, only=None, record=True, check_injector=False):
         replaced = [p for p, rec in w.entries() if (rec["type"] != "dir" and pre[p][0] not in (None, "dir"))
                     or (rec["type"] == "dir" and pre[p] == ("sym", None))]
         cause = c18.root_cause(w, pre)
+        world_classes = sorted(c18.twin_classes(w, pre))
+        # root-relative live paths of the entries that get replaced: an event aimed directly at one of them (not at
+        # its '#new' sibling) modifies a pre-existing path in place
+        live = {os.path.relpath(os.path.join(w.world, pre_nodes[p]), os.path.realpath(w.root)) for p in replaced}
         wcase = {"img": case["img"], "root": case["root"], "variant": case["variant"], "inject": None}
         if not replaced:
             if record:
@@ -503,6 +507,8 @@ def run_world(ctx, case, only=None, record=True, check_injector=False):
                 res = inproc(ctx, icase, op, w.root, expected, k=k, mode=mode)
                 evname = evmap.get(k, {"ev": "?"})["ev"]
                 in_window = [how for (s, e, how) in windows if s <= k <= e and not (k == s and mode == "before")]
+                if evmap.get(k, {}).get("path") in live and evname != "os.link":
+                    in_window.append("in-place")
             else:
                 res = inproc(ctx, icase, op, w.root, expected, wk=k, wmode=mode)
                 evname = "write"
@@ -518,6 +524,7 @@ def run_world(ctx, case, only=None, record=True, check_injector=False):
                 cl = [f"mode:{mode}", f"ev:{evname}", f"status:{res.status}"] + [f"window:{h}" for h in set(in_window)]
                 if cause:
                     cl.append(cause)
+                cl += world_classes
                 ctx.case(icase, nontrivial=bool(in_window), classes=cl,
                          key=core.jdump([case["img"], case["root"], case["variant"], k, mode]))
         return nviol
@@ -559,6 +566,19 @@ FIXED = [
               {"path": "zz-victim-1", "type": "file", "data": "precious", **_m(0o644)}, {"path": "f", "type": "sym", "target": "zz-victim-1"},
               {"path": "g", "type": "fifo", **_m(0o600)}, {"path": "q", "type": "fifo", **_m(0o600)}, {"path": "zz", "type": "sym", "target": "old"}],
      "variant": dict(_V, offset="rewrite")},
+    # re-merge shapes: same bytes+size+mtime but other owner/mode (setuid to be gained); same size+mtime but other
+    # bytes; same bytes, other mtime; byte-identical twin; each followed by another entry
+    {"img": [{"path": "u1", "type": "file", "data": "NEW-BINARY\n", **_m(0o4711, 0, 0, 1600000000)},
+             {"path": "u2", "type": "file", "data": "same-size-A", **_m(0o644, 12345, 12346, 1600000000)},
+             {"path": "u3", "type": "file", "data": "touched", **_m(0o2755, 12346, 0, 1600000000)},
+             {"path": "u4", "type": "file", "data": "identical", **_m(0o600, 12345, 12345, 1600000000)},
+             {"path": "u5", "type": "hardlink", "to": "u1"}, {"path": "z", "type": "file", "data": "z", **_m(0o644)}],
+     "root": [{"path": "u1", "type": "file", "data": "NEW-BINARY\n", **_m(0o755, 12345, 12345, 1600000000)},
+              {"path": "u2", "type": "file", "data": "same-size-B", **_m(0o600, 0, 0, 1600000000)},
+              {"path": "u3", "type": "file", "data": "touched", **_m(0o755, 0, 0, 1)},
+              {"path": "u4", "type": "file", "data": "identical", **_m(0o600, 12345, 12345, 1600000000)},
+              {"path": "u5", "type": "file", "data": "NEW-BINARY\n", **_m(0o700, 12346, 12346, 1600000000)}],
+     "variant": _V},
     # >32 kB file over a file hardlinked to a bystander, inside pre-existing and symlinked directories, with a missing parent
     {"img": [{"path": "d", "type": "dir", **_m(0o750, 12345, 12346)}, {"path": "d/big", "type": "file", "data": "0123456789abcde\n", "rep": 4400, **_m(0o644, 12345)},
              {"path": "d/t", "type": "file", "data": "t", **_m(0o644)}, {"path": "l", "type": "dir", **_m(0o711, 12346, 12346)},
